@@ -4,6 +4,7 @@ package main
 
 import (
 	"fmt"
+	"sync/atomic"
 	"time"
 
 	"github.com/uhppoted/uhppote-core/uhppote"
@@ -21,6 +22,11 @@ var sweepLists = [][]string{nil, {"any"}, {"7"}, {"wiegand26"}, {"7", "wiegand26
 // remaining lists are dropped and the evidence says so (exhaustive:false). One Wiegand-26 list takes
 // about 40 s on 16 otherwise idle cores.
 const sweepBudget = 8*time.Minute + 30*time.Second
+
+// sweepDeadline: hard stop inside a list; chunks not yet started by then are skipped (and counted
+// as skipped in the evidence), so that the thorough tier stays inside its 10 minute budget even on
+// a heavily shared machine.
+const sweepDeadline = 9*time.Minute + 30*time.Second
 
 type sweepAgg struct {
 	first uint32
@@ -44,8 +50,13 @@ func sweepAllCardNumbers(r *vk.Run) {
 		lib, ref := formatKinds(list)
 		results := make([]map[string]*sweepAgg, chunks)
 		panics := make([]string, chunks)
+		var skipped atomic.Int64
 
 		vk.Parallel(chunks, func(ch int) {
+			if time.Since(processStart) > sweepDeadline {
+				skipped.Add(1)
+				return
+			}
 			var local map[string]*sweepAgg
 			lo := uint64(ch) << chunkBits
 			hi := lo + 1<<chunkBits
@@ -83,6 +94,13 @@ func sweepAllCardNumbers(r *vk.Run) {
 				r.Import([]vk.WorkerViolation{{Key: "C07/PutCard/" + class, What: what, Kind: "predicate",
 					Case: predicateCase{Card: a.first, Formats: list}, Count: a.count}})
 			}
+		}
+		if n := skipped.Load(); n > 0 {
+			r.NotExhaustive(fmt.Sprintf("2^32 sweep: hard time limit reached inside format list %v: %d of %d chunks of 2^%d card numbers not evaluated; lists %v not swept",
+				list, n, chunks, chunkBits, sweepLists[li+1:]))
+			r.Distinct((chunks - n) << chunkBits)
+			r.Add("cases/PutCard/sweep-2^32-predicate", (chunks-n)<<chunkBits)
+			break
 		}
 		done++
 		r.Distinct(1 << 32)
